@@ -184,11 +184,12 @@ func H_C12_sign() {
 	pay, ctKind, ctU, ctS := c12Payload("pay")
 	sp := &spySigner{alg: Algorithm(vInt64("alg")), sig: vBlobN("sig", 1, 100)}
 	np, nu := len(prot), len(unprot)
+	snapH := vSnapshot(&h)
 	vFreeze()
 	out, err := SignHashEnvelope(nil, sp, h, pay)
-	w := vWritesInto(&h)
+	changed := vChanged(&h, snapH)
 	vUnfreeze()
-	vAssert("sign: the caller's header maps and buffers are not written", w == 0)
+	vAssert("sign: the caller's header maps and buffers are not written", !changed)
 	vAssert("sign: the caller's maps keep their size", len(prot) == np && len(unprot) == nu)
 	if err != nil {
 		vAssert("sign: no bytes with an error", out == nil)
